@@ -14,7 +14,7 @@ from typing import Any, Dict, List, Optional, Tuple
 
 from rpv import families
 from rpv.checks.c16 import all_types_history
-from rpv.checks.inproc_util import candidate_days, clean_cut
+from rpv.checks.inproc_util import candidate_days, clean_cut, offset_sensitive_days
 from rpv.cli_core import cli_histories, cli_profile, generator_crash
 from rpv.drive_cli import Workspace
 from rpv.drive_inproc import frac
@@ -66,7 +66,15 @@ def make_case(rng: random.Random, index: int) -> Dict[str, Any]:
     clean = [d for d in days if all(clean_cut(h, d) for h in hists.values())]
     from_s = to_s = None
     pick = rng.random()
-    if pick < 0.3 and days:
+    sensitive = sorted({d for h in hists.values() for d in offset_sensitive_days(h)})
+    if sensitive and rng.random() < 0.5:
+        # a bound on the own date (or the UTC date) of a row whose two dates differ
+        day = rng.choice(sensitive)
+        if rng.random() < 0.6 or not all(clean_cut(h, day) for h in hists.values()):
+            from_s = day.isoformat()
+        else:
+            to_s = day.isoformat()
+    elif pick < 0.3 and days:
         from_s = rng.choice(days).isoformat()
     elif pick < 0.5 and clean:
         to_s = rng.choice(clean).isoformat()
@@ -116,13 +124,26 @@ def _one(ctx: Any, expected: Expected, case: Dict[str, Any], name: str) -> None:
             return
         from_d = date.fromisoformat(case["from"]) if case.get("from") else None
         to_d = date.fromisoformat(case["to"]) if case.get("to") else None
-        computed = expected.compute(ws.ini, ws.ods, country, {1970: case["method"]}, from_d, to_d, allow_negative="-n" in case.get("extra_args", []))
+        # "the fractions of the window" are derived from the input side: the fractions of the run limited by the to-date only (their
+        # k/n labels count history up to the to-date) whose event's own date is on or after the from-date - not from the tree's own
+        # from-date view; and that to-date view must hold exactly the unfiltered fractions dated up to the to-date (clean cuts)
+        negative = "-n" in case.get("extra_args", [])
+        computed = expected.compute(ws.ini, ws.ods, country, {1970: case["method"]}, None, to_d, allow_negative=negative)
+        if to_d is not None and all(clean_cut(h, to_d) for h in hists.values()):
+            unfiltered = expected.compute(ws.ini, ws.ods, country, {1970: case["method"]}, None, None, allow_negative=negative)
+            for asset in sorted(computed):
+                upto = [(g.taxable_event.unique_id, g.acquired_lot.unique_id if g.acquired_lot else "", frac(g.crypto_amount)) for g in unfiltered[asset].gain_loss_set if g.taxable_event.timestamp.date() <= to_d]
+                view = [(g.taxable_event.unique_id, g.acquired_lot.unique_id if g.acquired_lot else "", frac(g.crypto_amount)) for g in computed[asset].gain_loss_set]
+                if upto != view:
+                    ctx.violation("taxreport.to-date-view-is-not-the-history-up-to-the-to-date", {"asset": asset, "in_view": len(view), "expected": len(upto)}, case)
         date_format = "%m/%d/%Y" if country == "us" else "%Y/%m/%d"
         expected_by_sheet: Dict[str, List[Tuple[Any, ...]]] = {}
         for asset in sorted(computed):
             gls = computed[asset].gain_loss_set
             for g in gls:
                 event, lot = g.taxable_event, g.acquired_lot
+                if from_d is not None and event.timestamp.date() < from_d:
+                    continue
                 direction = "IN" if type(event).__name__ == "InTransaction" else ("OUT" if type(event).__name__ == "OutTransaction" else "INTRA")
                 ttype = event.transaction_type.value.upper()
                 event_note = f"{gls.get_taxable_event_fraction(g) + 1}/{gls.get_taxable_event_number_of_fractions(event)}: {g.crypto_amount:.8f} of {event.crypto_balance_change:.8f} {asset}"
